@@ -126,12 +126,14 @@ class Calibration(TorchFunctionMode):
     def calibrate_input(self, module: torch.nn.Module, input):
         if isinstance(module, QModuleMixin) and module.activation_qtype is not None:
             input = input[0]
-            if isinstance(input, QBytesTensor):
+            if isinstance(input, QBytesTensor) and input.qtype == module.activation_qtype:
                 # Just adopt the maximum scale of the input
                 module.input_scale = torch.max(input._scale).detach()
             else:
-                # Evaluate the best scale
-                input_scale = absmax_scale(input, module.activation_qtype)
+                # Evaluate the best scale (the scale of an input of another qtype is relative to another range: the
+                # module requantizes such an input, so its own scale is evaluated from the values)
+                values = input.dequantize() if isinstance(input, QBytesTensor) else input
+                input_scale = absmax_scale(values, module.activation_qtype)
                 module.input_scale = _updated_scale(module.input_scale, input_scale, self.momentum)
             return input
 
